@@ -54,6 +54,14 @@ def function_level(chk, rng, binp):
         alphabet = ["a", "&", "<", ">", '"', "'", "é", "日", "😀", "]]>", " ", "&amp;"]
         t = "".join(rng.pick(alphabet) for _ in range(rng.rand_range(0, 12)))
         lines.append("xmlesc " + (hx(t) if t else "-")); mlines.append("xmlesc " + (hx(t) if t else "-")); meta.append(("xmlesc", t))
+    # the event queue overflowing (it holds 1000): what the writer does with an event it cannot queue must not depend on where the
+    # multi-byte characters of its message fall
+    MBS = ["é", "日", "😀", "ß"]
+    for k in range(8 if n <= 400 else 60):
+        ch = MBS[k % len(MBS)]
+        t = "a" * (k % 4) + ch * rng.pick([100, 300, 700, 1400])
+        lines.append("eventburst 2500 " + hx(t)); mlines.append(None); meta.append(("eventburst", t))
+        lines.append("evdrain"); mlines.append(None); meta.append(("burstflush", None))
     # very short bodies, and hosts whose first data frame is one byte (or another odd prefix) long: only "no panic" is compared
     ct = "application/json; charset=utf-16"
     for body, split in [(b"", None), (b"{", None), (b"{\x00", None), (b"{\x00}", None), (b"{\x00}\x00", 1), (b"{\x00}\x00", 3),
@@ -74,6 +82,9 @@ def function_level(chk, rng, binp):
     pending_events = []
     for (kind, t), io, ml in zip(meta, impl, mlines):
         mo = next(mi) if ml is not None else None
+        if kind == "burstflush":
+            pending_events = []
+            continue
         if kind == "flush":
             got = [] if io == "-" else io.split(",")
             want = [m for (_, m) in pending_events]
@@ -190,6 +201,21 @@ def e2e_part(chk, rng, binp):
                 runner.run_case({"env": env, "caller": caller, "dest": e2e.IMDS,
                                  "req": {"method": "GET", "target": "/metadata/instance?a=1", "headers": [(b"Host", b"h")], "body": None, "chunked": None},
                                  "plan": None, "label": "imds", "c13_kind": "cmdline-dense", "no_failed_compare": True})
+        # callers whose process has nothing to show: a zombie (its command line reads as zero bytes), a process that has gone, a
+        # kernel-thread-like pid 2 - the record names them all the same
+        zomb = subprocess.Popen(["true"], stdout=subprocess.DEVNULL, stderr=subprocess.DEVNULL)     # never waited for: stays a zombie
+        stack.pids.append(zomb)
+        gone = subprocess.Popen(["true"], stdout=subprocess.DEVNULL, stderr=subprocess.DEVNULL)
+        gone.wait()
+        time.sleep(0.1)
+        for pid, what in ((zomb.pid, "zombie"), (gone.pid, "exited"), (2, "pid-2"), (0, "pid-0"), (4194303, "no-such-pid")):
+            ghost = {"uid": 1000, "user": "alice", "groups": ["users", "docker"], "pid": pid, "exe": "", "proc": "", "cmdline": "", "elevated": False}
+            for denied in (True, False):
+                env = {"ws": None, "imds": deny if denied else None, "hostga": None, "key": None}
+                chk.count("callers_without_process_details")
+                runner.run_case({"env": env, "caller": ghost, "dest": e2e.IMDS,
+                                 "req": {"method": "GET", "target": "/metadata/instance?ghost=" + what, "headers": [(b"Host", b"h")], "body": None, "chunked": None},
+                                 "plan": None, "label": "imds", "c13_kind": "caller-" + what, "no_failed_compare": True})
         # clients that hang up mid-request while the actors are slow
         for ep in ("ws", "imds", "hostga"):
             stack.ctl(f"rules {ep} none")
@@ -218,6 +244,61 @@ def e2e_part(chk, rng, binp):
             chk.violation("listener no longer serving after the input stream", {"alive": alive, "probe": probe["resp"] and probe["resp"]["status"]})
         chk.sample(runner.describe(runner.observations[0]))
     finally:
+        stack.close()
+
+
+def descriptor_exhaustion(chk, binp):
+    """more client connections at once than the process has file descriptors for (its limit lowered to 128): accepting fails for a
+    while; once the clients are gone the listener serves again"""
+    import socket
+    stack = e2e.Stack(binp, wrapper=["prlimit", "--nofile=128:128"])
+    conns = []
+    try:
+        callers = pipe.Callers(stack)
+        for ep in ("ws", "imds", "hostga"):
+            stack.ctl(f"rules {ep} none")
+        for i in range(400):
+            s = socket.socket()
+            s.settimeout(0.5)
+            try:
+                s.connect(e2e.PROXY)
+                conns.append(s)
+            except OSError:
+                s.close()
+        time.sleep(1.0)
+        for s in conns:
+            try:
+                s.close()
+            except OSError:
+                pass
+        conns = []
+        time.sleep(1.0)
+        ans = None
+        for attempt in range(3):
+            c = callers.caller(0, "curl", True)
+            try:
+                conn = stack.connect(audit=(0, c["pid"], 1, e2e.IMDS[0], e2e.IMDS[1]))
+                ans = conn.request(e2e.build_request("GET", "/metadata/instance?after=burst", [(b"Host", b"h")]), b"GET", 5.0)
+                conn.close()
+            except OSError:
+                ans = None
+            if ans is not None:
+                break
+            time.sleep(1.0)
+        chk.case(nontrivial_key=("descriptor-exhaustion", ans and ans["status"]))
+        chk.count("descriptor_exhaustion_bursts")
+        if ans is None or ans["status"] != 200:
+            chk.violation("listener no longer serving after the input stream",
+                          {"input": "400 simultaneous client connections against a descriptor limit of 128, then all closed", "alive": stack.alive()},
+                          expected="200 for a request made afterwards", observed=ans and ans["status"])
+        for p in stack.panics()[:3]:
+            chk.violation("panic inside the agent (process-wide panic hook)", {"panic": p[:400]})
+    finally:
+        for s in conns:
+            try:
+                s.close()
+            except OSError:
+                pass
         stack.close()
 
 
@@ -323,6 +404,7 @@ def run(chk):
     e2e_part(chk, rng, binp)
     late_notify(chk, binp)
     hostile_status_documents(chk, rng, binp)
+    descriptor_exhaustion(chk, binp)
     chk.coverage["rule"] = ("function level: texts sized around the 4096/1024 offsets with 2/3/4-byte scalars straddling them through the real "
                             "write_event (read back from the event files), get_module_status, and utf-16 bodies of even/odd length through "
                             "read_response_body; e2e: header values with bytes >= 0x80 (valid, truncated and invalid UTF-8), callers with long "
